@@ -102,6 +102,10 @@ type Context struct {
 	PicWidthInLumaSamples  uint32 // sps
 	PicHeightInLumaSamples uint32 // sps
 
+	// Width Height 输出图像的宽高：编码宽高减去conformance window（ISO_IEC_23008-2 7.4.3.2.1）
+	Width  uint32
+	Height uint32
+
 	ConfigurationVersion uint8 // const value: 1
 
 	GeneralProfileSpace              uint8
@@ -513,8 +517,9 @@ func ParseSps(sps []byte, ctx *Context) error {
 		return err
 	}
 	ctx.ChromaFormat = uint8(cf)
+	var separateColourPlaneFlag uint8
 	if ctx.ChromaFormat == 3 {
-		if _, err = br.ReadBit(); err != nil {
+		if separateColourPlaneFlag, err = br.ReadBit(); err != nil {
 			return err
 		}
 	}
@@ -531,20 +536,33 @@ func ParseSps(sps []byte, ctx *Context) error {
 	if err != nil {
 		return err
 	}
+	var confWinLeft, confWinRight, confWinTop, confWinBottom uint32
 	if conformanceWindowFlag != 0 {
-		if _, err = br.ReadGolomb(); err != nil {
+		if confWinLeft, err = br.ReadGolomb(); err != nil {
 			return err
 		}
-		if _, err = br.ReadGolomb(); err != nil {
+		if confWinRight, err = br.ReadGolomb(); err != nil {
 			return err
 		}
-		if _, err = br.ReadGolomb(); err != nil {
+		if confWinTop, err = br.ReadGolomb(); err != nil {
 			return err
 		}
-		if _, err = br.ReadGolomb(); err != nil {
+		if confWinBottom, err = br.ReadGolomb(); err != nil {
 			return err
 		}
 	}
+	// the conformance window offsets are in units of SubWidthC/SubHeightC (ChromaArrayType 1 -> 2x2, 2 -> 2x1, else 1x1)
+	subWidthC, subHeightC := uint32(1), uint32(1)
+	if separateColourPlaneFlag == 0 {
+		switch ctx.ChromaFormat {
+		case 1:
+			subWidthC, subHeightC = 2, 2
+		case 2:
+			subWidthC = 2
+		}
+	}
+	ctx.Width = ctx.PicWidthInLumaSamples - subWidthC*(confWinLeft+confWinRight)
+	ctx.Height = ctx.PicHeightInLumaSamples - subHeightC*(confWinTop+confWinBottom)
 
 	var bdlm8 uint32
 	if bdlm8, err = br.ReadGolomb(); err != nil {
